@@ -4,7 +4,8 @@
 // nodes are opaque.
 #[allow(unused_imports)]
 use std::cmp::Ordering;
-#[derive(Clone, Copy, PartialEq, Eq)]
+// the real enum derives PartialEq/Eq: `==` is structural equality
+#[derive(Clone, Copy, PartialEq, Eq, Structural)]
 pub enum BinaryOp { SingleEq, Equal, NotEqual, GreaterThan, GreaterThanEqual, LessThan, LessThanEqual, Plus, Minus, Mul, Div, Rem, And, Or }
 
 /// The precedence levels of SassScript binary operators, from the language reference
@@ -21,7 +22,10 @@ pub open spec fn spec_prec(op: BinaryOp) -> int {
     }
 }
 
-pub struct AstExpr { }
+// opaque, but not a one-value type: distinct nodes must be distinguishable in the contracts
+pub struct AstExpr { pub tag: u64 }
+pub uninterp spec fn spec_binop(l: AstExpr, op: BinaryOp, r: AstExpr) -> AstExpr;
+pub uninterp spec fn spec_slash(l: AstExpr, r: AstExpr) -> AstExpr;
 pub struct Spanned<T> { pub node: T, pub span: Span }
 impl Span {
     #[verifier::external_body]
@@ -31,15 +35,21 @@ impl AstExpr {
     #[verifier::external_body]
     pub fn is_slash_operand(&self) -> bool { unimplemented!() }
     #[verifier::external_body]
-    pub fn slash(left: AstExpr, right: AstExpr, span: Span) -> AstExpr { unimplemented!() }
+    pub fn slash(left: AstExpr, right: AstExpr, span: Span) -> (r: AstExpr)
+        ensures r == spec_slash(left, right)
+    { unimplemented!() }
     // R19: the node construction `AstExpr::BinaryOp(Arc::new(BinaryOpExpr { lhs, op, rhs, allows_slash: false, span }))`
     #[verifier::external_body]
-    pub fn binary_op_node(lhs: AstExpr, op: BinaryOp, rhs: AstExpr, span: Span) -> AstExpr { unimplemented!() }
+    pub fn binary_op_node(lhs: AstExpr, op: BinaryOp, rhs: AstExpr, span: Span) -> (r: AstExpr)
+        ensures r == spec_binop(lhs, op, rhs)
+    { unimplemented!() }
     // R19: `AstExpr::List(ListExpr { elems, separator: ListSeparator::Space, brackets: Brackets::None })`
     #[verifier::external_body]
     pub fn space_list_node(elems: Vec<Spanned<AstExpr>>) -> AstExpr { unimplemented!() }
     #[verifier::external_body]
-    pub fn span(self, span: Span) -> Spanned<AstExpr> { unimplemented!() }
+    pub fn span(self, span: Span) -> (r: Spanned<AstExpr>)
+        ensures r.node == self
+    { unimplemented!() }
 }
 pub struct ContextFlags { }
 impl ContextFlags {
